@@ -52,7 +52,16 @@ def gen_strings(rng, tier):
             for term in (b"\x00", b"\x80", b""):
                 body = bytes(0x41 + (i % 26) for i in range(ln))
                 cases.append(["strings %d %d %d 0x1000 %s" % (ml, mln, st, hx(b"\x01" + body + term))])
-    # thresholds of zero (outside the theorem's hypothesis; compared against the model only)
+    # thresholds of zero (outside the theorem's hypothesis; compared against the model only): exhaustive
+    # over the three byte classes up to length 4, plus random longer ones
+    for ml in (0, 1):
+        for mln in (0, 1):
+            for st in (0, 1):
+                if ml and mln:
+                    continue
+                for n in range(0, 5):
+                    for tup in itertools.product((0x41, 0, 0x80), repeat=n):
+                        cases.append(["strings %d %d %d 0 %s" % (ml, mln, st, hx(bytes(tup)))])
     for _ in range(40):
         bs = bytes(rng.choice([0x41, 0, 0x80]) for _ in range(rng.randrange(0, 10)))
         cases.append(["strings %d %d %d 0 %s" % (rng.randrange(2), rng.randrange(2), rng.randrange(2), hx(bs))])
